@@ -4,11 +4,11 @@
    way of delivering it, in every reachable state: the budget stays in [0, L]; the capacity of the chunk body buffer stays in [32 KiB, L + 32 KiB] and the
    buffer never holds more than its capacity; the accounted metadata copies (PLTE, tRNS, sBIT, ICC profile, all text chunk fields) total at most L; and
    accounted metadata + buffer growth + remaining budget <= L.  None of these bounds mentions the declared dimensions, chunk lengths, chunk counts or the
-   inflated size of any stream.  What is NOT proved (runtime facts measured by the counting allocator on every run): Vec growth policy, the inflater's
-   output window (zlib.rs), the unfiltering row buffers, the Reader's scratch/row buffers, fdeflate's tables, String conversion of text. *)
+   inflated size of any stream.  What is NOT proved (runtime facts measured by the counting allocator on every run): Vec growth policy, the fdeflate's internals, the unfiltering row buffers, the Reader's scratch/row buffers, fdeflate's tables, String conversion of text. *)
 From PngV Require Import Base.Bytes Base.Crc Base.Inflate Base.Utf8 Gen.GenStream Model.Stream Model.StreamRun Model.StreamExec Proofs.StreamProofs Proofs.LedgerProofs.
 From RecordUpdate Require Import RecordSet.
 Import RecordSetNotations.
+From PngV Require Import Model.ZlibBuf Proofs.ZlibBufProofs.
 
 (* every reachable state of the stream machine, any input, any schedule: the ledger bounds *)
 Theorem C06_ledger_bound :
@@ -52,6 +52,23 @@ Theorem C06_initial_state :
   forall (o : options) (L : Z), 0 <= L -> Inv L (init_state o L).
 Proof. exact init_inv. Qed.
 
+(* the inflater's output buffer never exceeds BOUND = 2*(COMPACT_FACTOR*LOOKBACK_SIZE + CHUNK_BUFFER_SIZE) bytes, however much the stream inflates to *)
+Theorem C06_inflater_buffer_bounded :
+  forall news : list (list Z),
+       fits zb_new news ->
+       let z := fst (zb_run zb_new news) in
+       let produced := concat news in
+       snd (zb_run zb_new news) = produced /\
+       (exists pre : list Z, produced = pre ++ zb_data z) /\
+       (zlen produced <= zlen (zb_data z) \/ 32768 <= zlen (zb_data z)) /\
+       zb_len z <= BOUND /\ zlen (zb_data z) <= zb_len z.
+Proof. exact window_delivery_bound. Qed.
+
+(* the bound in terms of the regenerated constants (327680 bytes for the current source) *)
+Theorem C06_inflater_bound_value :
+  BOUND = 2 * (LOOKBACK_SIZE * COMPACT_FACTOR + CHUNK_BUFFER_SIZE).
+Proof. exact bound_value. Qed.
+
 (* non-vacuity: a 1x1 image with a tEXt chunk "k\\0v" under L = 1000: 3 bytes taken from the budget, 2 bytes of text fields held *)
 Example C06_ex_text :
   let file := [137;80;78;71;13;10;26;10; 0;0;0;13; 73;72;68;82; 0;0;0;1; 0;0;0;1; 8;0;0;0;0; 58;126;155;85;
@@ -65,3 +82,5 @@ Print Assumptions C06_update_preserves_ledger.
 Print Assumptions C06_chunk_parsers_pay.
 Print Assumptions C06_buffer_growth_paid.
 Print Assumptions C06_initial_state.
+Print Assumptions C06_inflater_buffer_bounded.
+Print Assumptions C06_inflater_bound_value.
